@@ -167,7 +167,10 @@ def check_models(res, sc, genome, ctx, case):
     tails = {}
     for r in sc["reads"]:
         tails[r["n"]] = ("A" if r.get("sr", "").startswith("AAAA") else "") + ("T" if r.get("sl", "").startswith("TTTT") else "")
-    level_all = sc["opts"][sc["opts"].index("--report_canonical") + 1] == "all"
+    rc_ = sc["opts"][sc["opts"].index("--report_canonical") + 1]
+    ms_ = sc["opts"][sc["opts"].index("--model_construction_strategy") + 1] \
+        if "--model_construction_strategy" in sc["opts"] else None
+    level_all = rc_ == "all" or (rc_ == "auto" and ms_ == "all")
     for fn in ("transcript_models.gtf", "extended_annotation.gtf"):
         p = res.path(fn)
         if not p:
